@@ -115,3 +115,30 @@ type regKeyedInline struct {
 func TestRegressionInlinedFieldWithKeyJSON(t *testing.T) {
 	roundTrip(t, serix.NewAPI(), &regKeyedInline{RegInner: RegInner{X: 3}, Y: 4})
 }
+
+type regInner struct {
+	A string `serix:",lenPrefix=uint32"`
+	B int8   `serix:""`
+}
+type regOnePtr struct {
+	F [1]*regInner `serix:",lenPrefix=uint32"`
+}
+type regOnePtrMap struct {
+	M map[int64]regOnePtr `serix:",lenPrefix=uint8"`
+}
+
+// A one-element array of pointers inside a struct that is not addressable (map value, struct handed to Encode by
+// value) is stored directly in the reflect.Value's data word; sliceFromArray copied it with reflect.Copy, which read the
+// first word of the pointed-to struct instead: Encode failed with a bogus string length or crashed.
+func TestRegressionOneElementPointerArrayByValue(t *testing.T) {
+	api := regAPI(t)
+	want, err := api.Encode(context.Background(), &regOnePtr{F: [1]*regInner{{A: "ab", B: 28}}})
+	if err != nil {
+		t.Fatalf("encode through a pointer: %v", err)
+	}
+	got, err := api.Encode(context.Background(), regOnePtr{F: [1]*regInner{{A: "ab", B: 28}}})
+	if err != nil || !bytes.Equal(got, want) {
+		t.Fatalf("encode by value: %x, %v; through a pointer: %x", got, err, want)
+	}
+	roundTrip(t, api, &regOnePtrMap{M: map[int64]regOnePtr{0: {F: [1]*regInner{{A: "ab", B: 28}}}, 16: {F: [1]*regInner{{A: "", B: -2}}}}})
+}
